@@ -24,7 +24,8 @@ ASSUMPTIONS = [
     "(0, 1, 0x7FFF, 0x8000, 0xFFFF: an idle timer has PRE / ACC 0)",
     "the node is free to: detect duplicates the DF1 way (same command and transaction number as the previous command -> the reply is repeated, nothing is "
     "executed; half of the scenarios), choose any session handle (a third of the scenarios: one whose bytes look like a protocol marker), refuse what does not "
-    "fit the negotiated connection size; several addresses in one write() call are each applied and nothing else changes; a quarter of the {count} writes "
+    "fit the negotiated connection size; several addresses in one write() call are each applied and nothing else changes (a third of these calls name their first address twice: n results, the later value stays); "
+    "the caller's value list is unchanged after a write (also when longer than {count}) and a fifth of the {count} values are passed as tuples; a quarter of the {count} writes "
     "carry up to 234 data bytes",
 ]
 ANCHORS = [
@@ -219,7 +220,11 @@ def run(ctx):
                     parsed = [(tx, a_) for tx, a_ in parsed if isinstance(a_, dict) and refslc.device_accepts(tab, a_)]
                     if len(parsed) < 2:
                         continue
+                    if rng.random() < 0.35:
+                        # the same address twice in one call (set, then reset): two requests, two results, the later value stays
+                        parsed.insert(rng.randrange(1, len(parsed) + 1), parsed[0])
                     vals_ = [value_for(a_, rng) for _, a_ in parsed]
+                    last_ = {tx: v_ for (tx, _), v_ in zip(parsed, vals_)}
                     before_ = tab.snapshot()
                     st, tags_ = b.call("write", drv.write, *[(tx, v_) for (tx, _), v_ in zip(parsed, vals_)])
                     res.ev()
@@ -230,6 +235,7 @@ def run(ctx):
                         continue
                     allowed_ = set()
                     for (tx, a_), v_ in zip(parsed, vals_):
+                        v_ = last_[tx]
                         got_ = refslc.expected_read(tab, a_)
                         if not values_match(a_["type"], v_, got_):
                             res.violation("multi-address-write-not-applied", f"write{tuple(t_ for t_, _ in parsed)!r} reported success for every address; {tx!r} holds {got_!r}, written {v_!r}", wit_)
@@ -354,8 +360,15 @@ def run(ctx):
                     continue
                 val = value_for(a, rng)
                 before = tab.snapshot()
-                st, tg_ = b.call("write", drv.write, (text, val))
+                # the value belongs to the caller: a list (also one longer than {count}) is what it was after the call, and a tuple
+                # serves as well as a list
+                sent_ = tuple(val) if isinstance(val, list) and rng.random() < 0.2 else val
+                snap_ = list(val) if isinstance(val, list) else None
+                st, tg_ = b.call("write", drv.write, (text, sent_))
                 res.ev()
+                if snap_ is not None and isinstance(sent_, list) and sent_ != snap_:
+                    res.violation("write-modified-the-callers-value", f"write(({text!r}, <list of {len(snap_)}>)) left the caller's list as {sent_!r:.80} (was {snap_!r:.80})", wit)
+                    val = snap_
                 if st != "ok":
                     res.violation(f"write-raises:{form}:{type(tg_).__name__}", f"write({text!r}, {val!r:.60}) raised {tg_!r:.160}", wit)
                     continue
